@@ -60,6 +60,8 @@ structure Env where
   isRoot : Bool
   /-- `bool(style.pseudo_type)` -/
   pseudo : Bool
+  /-- `style.element.get(name)` (`none` = attribute absent) -/
+  attr : String → Option Val := fun _ => none
 
 /-- `length(style, name, value, font_size=None, pixels_only=False)`. -/
 def length (env : Env) (value : Val) (fontSize : Option Rat := none) (pixelsOnly : Bool := false) :
@@ -276,6 +278,296 @@ def verticalAlign (env : Env) (value : Val) : Except CErr Val :=
     else length env value (pixelsOnly := true)
   | _ => .error (.attributeError "vertical_align: value.unit")
 
+/-! ### tuple-valued properties -/
+
+/-- `for v in values`: what iterating the Python value yields (a `Dimension` is a named tuple,
+a string yields its characters; numbers and `None` are not iterable). -/
+def elems (site : String) : Val → Except CErr (List Val)
+  | .tup l => .ok l
+  | .strs l => .ok (l.map .kw)
+  | .kw s => .ok (s.toList.map (fun c => .kw (String.singleton c)))
+  | .dim q u => .ok [.num q, if u == "none" then .null else .kw u]
+  | .tagged t q => .ok [.kw t, .num q]
+  | .num _ => .error (.typeError (site ++ ": number is not iterable"))
+  | .null => .error (.typeError (site ++ ": None is not iterable"))
+
+def kwName? : Val → Option String
+  | .kw s => if s == "" then none else some s
+  | _ => none
+
+/-- `tuple(...)` in the canonical shape of the wire: a flat tuple of (non-empty) strings is `strs`. -/
+def mkTuple (l : List Val) : Val :=
+  match allSome kwName? l with
+  | some names => .strs names
+  | none => .tup l
+
+/-- `len(values)`. -/
+def pyLen (site : String) : Val → Except CErr Nat
+  | .tup l => .ok l.length
+  | .strs l => .ok l.length
+  | .kw s => .ok s.length
+  | .dim _ _ => .ok 2
+  | .tagged _ _ => .ok 2
+  | _ => .error (.typeError (site ++ ": object has no len()"))
+
+def mapLength (env : Env) (pixelsOnly : Bool) : List Val → Except CErr (List Val)
+  | [] => .ok []
+  | v :: rest => do
+    let h ← length env v none pixelsOnly
+    let t ← mapLength env pixelsOnly rest
+    pure (h :: t)
+
+/-- `length_tuple` (`border-spacing`, `size`, `clip`): `tuple(length(…, pixels_only=True) for v in values)`. -/
+def lengthTuple (env : Env) (values : Val) : Except CErr Val := do
+  let l ← elems "length_tuple" values
+  pure (mkTuple (← mapLength env true l))
+
+/-- `length_or_percentage_tuple` (`transform-origin`) and `border_radius`: `tuple(length(…) for v in values)`. -/
+def lengthOrPercentageTuple (env : Env) (values : Val) : Except CErr Val := do
+  let l ← elems "length_or_percentage_tuple" values
+  pure (mkTuple (← mapLength env false l))
+
+/-- One item of `compute_position`: `origin_x, pos_x, origin_y, pos_y = item`. -/
+def positionItem (env : Env) (item : Val) : Except CErr Val := do
+  match ← elems "compute_position" item with
+  | [ox, px, oy, py] => do
+    let x ← length env px
+    let y ← length env py
+    pure (mkTuple [ox, x, oy, y])
+  | _ => .error (.valueError "compute_position: unpack 4 values")
+
+def mapPosition (env : Env) : List Val → Except CErr (List Val)
+  | [] => .ok []
+  | v :: rest => do
+    let h ← positionItem env v
+    let t ← mapPosition env rest
+    pure (h :: t)
+
+/-- `compute_position` (`background-position`, `object-position`). -/
+def computePosition (env : Env) (values : Val) : Except CErr Val := do
+  let l ← elems "compute_position" values
+  pure (mkTuple (← mapPosition env l))
+
+def mapBackgroundSize (env : Env) : List Val → Except CErr (List Val)
+  | [] => .ok []
+  | v :: rest => do
+    let h ← if v.isKw "contain" || v.isKw "cover" then pure v else lengthOrPercentageTuple env v
+    let t ← mapBackgroundSize env rest
+    pure (h :: t)
+
+/-- `background_size`. -/
+def backgroundSize (env : Env) (values : Val) : Except CErr Val := do
+  let l ← elems "background_size" values
+  pure (mkTuple (← mapBackgroundSize env l))
+
+/-- The padding of the `border-image-*` functions: 1 value ↦ ×4, 2 ↦ ×2, 3 ↦ append the second. -/
+def padFour (l : List Val) : List Val :=
+  match l with
+  | [a] => [a, a, a, a]
+  | [a, b] => [a, b, a, b]
+  | [a, b, c] => [a, b, c, b]
+  | _ => l
+
+/-- `number, unit = value` for the `border-image-*` items (`value` is a `Dimension`; anything else
+that unpacks into two is outside the model). -/
+def numberUnit (site : String) (v : Val) : Except CErr (Rat × Option String) :=
+  match v with
+  | .dim q u => .ok (q, if u == "none" then none else some u)
+  | _ => do
+    let l ← elems site v
+    if l.length == 2 then .error (.unsupported (site ++ ": unpacking a pair that is not a Dimension"))
+    else .error (.valueError (site ++ ": number, unit = value"))
+
+def sliceItems : List Val → Except CErr (List Val × Val)
+  | [] => .ok ([], .null)
+  | v :: rest => do
+    if v.isKw "fill" then
+      let (l, _) ← sliceItems rest
+      -- a later 'fill' would overwrite with the same value
+      pure (l, v)
+    else do
+      let (q, unit) ← numberUnit "border_image_slice" v
+      let (l, fill) ← sliceItems rest
+      pure ((match unit with | none => Val.num q | some _ => Val.dim q "%") :: l, fill)
+
+/-- `border_image_slice` (`border-image-slice`, `mask-border-slice`). -/
+def borderImageSlice (values : Val) : Except CErr Val := do
+  let l ← elems "border_image_slice" values
+  let (computed, fill) ← sliceItems l
+  pure (mkTuple (padFour computed ++ [fill]))
+
+def widthItems : List Val → Except CErr (List Val)
+  | [] => .ok []
+  | v :: rest => do
+    let h ← if v.isKw "auto" then pure v else do
+      let (q, unit) ← numberUnit "border_image_width" v
+      -- `number if unit is None else value`: the length is *not* computed (known finding
+      -- border-image-width-not-computed)
+      pure (match unit with | none => Val.num q | some _ => v)
+    let t ← widthItems rest
+    pure (h :: t)
+
+/-- `border_image_width` (`border-image-width`, `mask-border-width`). -/
+def borderImageWidth (values : Val) : Except CErr Val := do
+  let l ← elems "border_image_width" values
+  pure (mkTuple (padFour (← widthItems l)))
+
+def outsetItems (env : Env) : List Val → Except CErr (List Val)
+  | [] => .ok []
+  | v :: rest => do
+    let h ← match v with
+      | .num _ => pure v            -- isinstance(value, (int, float))
+      | _ => length env v
+    let t ← outsetItems env rest
+    pure (h :: t)
+
+/-- `border_image_outset` (`border-image-outset`, `mask-border-outset`). -/
+def borderImageOutset (env : Env) (values : Val) : Except CErr Val := do
+  let l ← elems "border_image_outset" values
+  pure (mkTuple (padFour (← outsetItems env l)))
+
+/-- `border_image_repeat`: `(values * 2) if len(values) == 1 else values`. -/
+def borderImageRepeat (values : Val) : Except CErr Val := do
+  let n ← pyLen "border_image_repeat" values
+  if n == 1 then do
+    let l ← elems "border_image_repeat" values
+    match values with
+    | .kw s => pure (.kw (s ++ s))
+    | _ => pure (mkTuple (l ++ l))
+  else pure values
+
+def mapTransform (env : Env) : List Val → Except CErr (List Val)
+  | [] => .ok []
+  | item :: rest => do
+    let h ← match ← elems "transform" item with
+      | [function, args] =>
+        if function.isKw "translate" then do
+          let a ← lengthOrPercentageTuple env args
+          pure (mkTuple [function, a])
+        else pure (mkTuple [function, args])
+      | _ => .error (.valueError "transform: unpack (function, args)")
+    let t ← mapTransform env rest
+    pure (h :: t)
+
+/-- `transform`. -/
+def transform (env : Env) (value : Val) : Except CErr Val := do
+  let l ← elems "transform" value
+  pure (mkTuple (← mapTransform env l))
+
+/-! ### content lists, anchor, lang -/
+
+/-- `value[0]` of a content-list item, as far as it can be one of the known kinds
+(`none`: it is something else — a character, a number …). -/
+def headName (site : String) (item : Val) : Except CErr (Option String) :=
+  match item with
+  | .strs (h :: _) => .ok (some h)
+  | .tup (.kw h :: _) => .ok (some h)
+  | .tup (_ :: _) => .ok none
+  | .strs [] => .error (.indexError (site ++ ": value[0]"))
+  | .tup [] => .error (.indexError (site ++ ": value[0]"))
+  | .kw s => if s.isEmpty then .error (.indexError (site ++ ": value[0]")) else .ok none
+  | .dim _ _ => .ok none
+  | .tagged t _ => .ok (some t)
+  | .num _ => .error (.typeError (site ++ ": number is not subscriptable"))
+  | .null => .error (.typeError (site ++ ": None is not subscriptable"))
+
+/-- `compute_attr(style, ('attr()', (name, 'string', fallback)))` for the `string` type:
+`('string', style.element.get(name, fallback))`. -/
+def computeAttrString (env : Env) (item : Val) : Except CErr Val :=
+  let go (name : String) (ty : Val) (fallback : Val) : Except CErr Val :=
+    if ty.isKw "string" then
+      .ok (mkTuple [.kw "string", (env.attr name).getD fallback])
+    else .error (.assertion "_content_list: assert value[1][1] == 'string'")
+  match item with
+  | .tup [.kw _, .strs [name, ty, fallback]] => go name (.kw ty) (.kw fallback)
+  | .tup [.kw _, .tup [.kw name, ty, fallback]] => go name ty fallback
+  | _ => .error (.unsupported "compute_attr: item shape")
+
+/-- The loop of `_content_list`; `prev` is the `computed_value` variable left by the previous
+iteration (an item of an unknown kind re-uses it, or raises `UnboundLocalError` first). -/
+def contentItems (env : Env) (prev : Option Val) : List Val → Except CErr (List Val)
+  | [] => .ok []
+  | item :: rest => do
+    let h := (← headName "_content_list" item).getD ""
+    let computed ←
+      if ["string", "content", "url", "quote", "leader()"].contains h then pure item
+      else if h == "attr()" then computeAttrString env item
+      else if ["counter()", "counters()", "content()", "element()", "string()"].contains h then pure item
+      else if ["target-counter()", "target-counters()", "target-text()"].contains h then
+        .error (.unsupported "_content_list: target-*()")
+      else match prev with
+        | some v => pure v
+        | none => .error (.unboundLocal "_content_list: computed_value")
+    let t ← contentItems env (some computed) rest
+    pure (computed :: t)
+
+/-- `_content_list(style, values)`. -/
+def contentList (env : Env) (values : Val) : Except CErr Val := do
+  let l ← elems "_content_list" values
+  pure (mkTuple (← contentItems env none l))
+
+/-- `content(style, name, values)`. -/
+def content (env : Env) (values : Val) : Except CErr Val := do
+  let n ← pyLen "content" values
+  let single : Option Val ←
+    if n == 1 then do
+      match ← elems "content" values with
+      | [v] => pure (some v)
+      | _ => pure none
+    else pure none
+  match single with
+  | some v =>
+    if v.isKw "normal" then pure (.kw (if env.pseudo then "inhibit" else "contents"))
+    else if v.isKw "none" then pure (.kw "inhibit")
+    else contentList env values
+  | none => contentList env values
+
+def stringSetItems (env : Env) : List Val → Except CErr (List Val)
+  | [] => .ok []
+  | item :: rest => do
+    let h ← match ← elems "string_set" item with
+      | name :: list :: _ => do
+        let c ← contentList env list
+        pure (mkTuple [name, c])
+      | _ => .error (.indexError "string_set: string_set[1]")
+    let t ← stringSetItems env rest
+    pure (h :: t)
+
+/-- `string_set(style, name, values)`. -/
+def stringSet (env : Env) (values : Val) : Except CErr Val := do
+  let l ← elems "string_set" values
+  pure (mkTuple (← stringSetItems env l))
+
+/-- `style.element.get(key) or None`. -/
+def attrOrNone (env : Env) (key : String) : Val :=
+  match env.attr key with
+  | some v => if v.isKw "" then .null else v
+  | none => .null
+
+/-- `style.element.get(key) or None` for a key of any type. -/
+def attrOfVal (env : Env) : Val → Val
+  | .kw key => attrOrNone env key
+  | _ => .null
+
+/-- `anchor(style, name, values)`: `if values != 'none': _, key = values; return element.get(key) or None`. -/
+def anchor (env : Env) (values : Val) : Except CErr Val :=
+  if values.isKw "none" then .ok .null
+  else do
+    match ← elems "anchor" values with
+    | [_, key] => pure (attrOfVal env key)
+    | _ => .error (.valueError "anchor: _, key = values")
+
+/-- `lang(style, name, values)`. -/
+def lang (env : Env) (values : Val) : Except CErr Val :=
+  if values.isKw "none" then .ok .null
+  else do
+    match ← elems "lang" values with
+    | [name, key] =>
+      if name.isKw "attr()" then pure (attrOfVal env key)
+      else if name.isKw "string" then pure key
+      else pure .null
+    | _ => .error (.valueError "lang: name, key = values")
+
 /-- Dispatch on the `__name__` of the function registered in `COMPUTER_FUNCTIONS` (generated). -/
 def applyComputer (fname : String) (env : Env) (key : String) (value : Val) : Except CErr Val :=
   match fname with
@@ -294,6 +586,21 @@ def applyComputer (fname : String) (env : Env) (key : String) (value : Val) : Ex
   | "length_pixels_only" => length env value (pixelsOnly := true)
   | "bleed" => bleed env value
   | "vertical_align" => verticalAlign env value
+  | "length_tuple" => lengthTuple env value
+  | "length_or_percentage_tuple" => lengthOrPercentageTuple env value
+  | "border_radius" => lengthOrPercentageTuple env value
+  | "compute_position" => computePosition env value
+  | "background_size" => backgroundSize env value
+  | "border_image_slice" => borderImageSlice value
+  | "border_image_width" => borderImageWidth value
+  | "border_image_outset" => borderImageOutset env value
+  | "border_image_repeat" => borderImageRepeat value
+  | "transform" => transform env value
+  | "content" => content env value
+  | "bookmark_label" => contentList env value
+  | "string_set" => stringSet env value
+  | "anchor" => anchor env value
+  | "lang" => lang env value
   | other => .error (.unsupported ("computer function " ++ other))
 
 /-- `if key in COMPUTER_FUNCTIONS: value = COMPUTER_FUNCTIONS[key](self, key, value)`. -/
